@@ -6,7 +6,7 @@
    loop of the next one: they are elements of its [ds].  That the real clients carry no other state
    from one query to the next (the reusable receive buffer is re-sized and cut to the received
    length) is what the netlab history stream checks against this function. *)
-From RsdnsModel Require Import Base Client.
+From RsdnsModel Require Import Base RecordSet Client.
 From RsdnsModel.Proofs Require Import ClientProofs.
 Open Scope N_scope.
 Theorem C16_leftovers_ignored : forall std id qname qtype qclass pre post junk,
@@ -18,3 +18,13 @@ Theorem C16_leftover_accepted_only_if_matching : forall std id qname qtype qclas
   Forall (fun x => accept_datagram std id qname qtype qclass x = Ok None) pre ->
   accept_datagram std id qname qtype qclass d = Ok (Some fl).
 Proof. exact leftover_accepted_only_if_matching. Qed.
+
+(* the typed query parses exactly what the raw query received (the datagram cut to the configured
+   buffer size), whatever the reusable receive buffer held from earlier queries: its result is
+   record-set extraction of those bytes and no byte of an earlier response can enter it (the
+   lengths handed to set_len in take_buf / query_rrset are translated leaves, both client families) *)
+Theorem C16_typed_query_ignores_history : forall std old d bs ty,
+  lenN old = bs ->
+  typed_parse_input std old d bs = recv_into bs d /\
+  from_msg (typed_parse_input std old d bs) ty = from_msg (recv_into bs d) ty.
+Proof. intros std old d bs ty H. rewrite (typed_input_ignores_history std old d bs H). split; reflexivity. Qed.
